@@ -1000,7 +1000,7 @@ func (ex *Exec) execLoop(lp *loopParts) {
 	invs("entry")
 	var heapKeys []string
 	for k := range mod {
-		if strings.HasPrefix(k, "$H.") || strings.HasPrefix(k, "$G.") || strings.HasPrefix(k, "$P.") {
+		if strings.HasPrefix(k, "$H.") || strings.HasPrefix(k, "$G.") || strings.HasPrefix(k, "$P.") || strings.HasPrefix(k, "$M.") {
 			heapKeys = append(heapKeys, k)
 		}
 	}
